@@ -148,8 +148,11 @@ def scenario(V, P, cfg):
     m.reset()
     gtw, _, _ = run(S1, times=2)
     m.reset()
+    gtr, _, _ = run(S1, times=3)                   # "all repetitions": an aliased seed doubles (1, 2, 4), it does not add
+    m.reset()
     for i in range(len(ins)):
         obs["g1_%d" % i], obs["g2_%d" % i], obs["g12_%d" % i], obs["gtw_%d" % i] = g1[i], g2[i], g12[i], gtw[i]
+        obs["gtr_%d" % i] = gtr[i]
     if not V.symbolic:
         obs["_first_response_input_change"] = first_change
 
@@ -174,13 +177,14 @@ def scenario(V, P, cfg):
         obs["_chg:reset-clears"] = 0.0 if all(none_after_reset) else 1.0
     if P is not None:
         for i in range(len(ins)):
-            if g1[i] is None and g2[i] is None and g12[i] is None and gtw[i] is None:
+            if g1[i] is None and g2[i] is None and g12[i] is None and gtw[i] is None and gtr[i] is None:
                 continue
             z = lambda g, ref: (np.zeros(np.shape(ref), dtype=object) if g is None else g)   # noqa: E731
-            ref = next(x for x in (g1[i], g2[i], g12[i], gtw[i]) if x is not None)
-            G1, G2, G12, GT = z(g1[i], ref), z(g2[i], ref), z(g12[i], ref), z(gtw[i], ref)
+            ref = next(x for x in (g1[i], g2[i], g12[i], gtw[i], gtr[i]) if x is not None)
+            G1, G2, G12, GT, G3 = z(g1[i], ref), z(g2[i], ref), z(g12[i], ref), z(gtw[i], ref), z(gtr[i], ref)
             P.arrays_eq("linear[in%d]" % i, G12, a * G1 + b * G2, kind="linearity")
             P.arrays_eq("twice[in%d]" % i, GT, 2 * G1, kind="accumulate-twice")
+            P.arrays_eq("thrice[in%d]" % i, G3, 3 * G1, kind="accumulate-thrice")
         for k, (x, y) in enumerate(zip(sb1, sa1)):
             _same(P, "state-after-sensitivity[%d]" % k, x, y, "state-unchanged-by-sensitivity")
         for k, (x, y) in enumerate(zip(st_pre_reset, st_post_reset)):
@@ -222,20 +226,26 @@ def replay(cfg, label, env, case):
     bad, det = False, {}
     n = len([k for k in obs if k.startswith("g1_")])
     for i in range(n):
-        g1, g2, g12, gt = (obs["%s_%d" % (k, i)] for k in ("g1", "g2", "g12", "gtw"))
-        if g1 is None and g12 is None and gt is None:
+        g1, g2, g12, gt, g3 = (obs["%s_%d" % (k, i)] for k in ("g1", "g2", "g12", "gtw", "gtr"))
+        if g1 is None and g12 is None and gt is None and g3 is None:
             continue
         z = lambda g, ref: np.zeros(np.shape(ref)) if g is None else np.asarray(g)   # noqa: E731
-        ref = next(x for x in (g1, g2, g12, gt) if x is not None)
-        G1, G2, G12, GT = z(g1, ref), z(g2, ref), z(g12, ref), z(gt, ref)
+        ref = next(x for x in (g1, g2, g12, gt, g3) if x is not None)
+        G1, G2, G12, GT, G3 = z(g1, ref), z(g2, ref), z(g12, ref), z(gt, ref), z(g3, ref)
         sc = max(1.0, float(np.max(np.abs(G12))) if G12.size else 1.0, float(np.max(np.abs(GT))) if GT.size else 1.0)
         e1 = float(np.max(np.abs(G12 - (a * G1 + b * G2)))) if G12.size else 0.0
         e2 = float(np.max(np.abs(GT - 2 * G1))) if GT.size else 0.0
-        det["in%d" % i] = dict(linearity_err=e1, twice_err=e2)
-        if ("linear" in label and e1 > 1e-8 * sc) or ("twice" in label and e2 > 1e-8 * sc):
+        e3 = float(np.max(np.abs(G3 - 3 * G1))) if G3.size else 0.0
+        sc = max(sc, float(np.max(np.abs(G3))) if G3.size else 1.0)
+        det["in%d" % i] = dict(linearity_err=e1, twice_err=e2, thrice_err=e3)
+        anyl = label == "*"
+        if (("linear" in label or anyl) and e1 > 1e-8 * sc) or (("twice" in label or anyl) and e2 > 1e-8 * sc) \
+                or (("thrice" in label or anyl) and e3 > 1e-8 * sc):
             bad = True
     for pre in ("state-after-sensitivity", "state-after-reset", "input-state-after-response", "sensitivity-after-response",
                 "reset-clears"):
+        if label == "*" and obs.get("_chg:" + pre, 0.0) > 0:
+            return dict(reproduced=True, detail={"clause": pre, "max_abs_change_on_the_real_library": obs["_chg:" + pre]})
         if label.startswith(pre):
             ch = obs.get("_chg:" + pre, 0.0)
             return dict(reproduced=bool(ch > 0), detail={"clause": pre, "max_abs_change_on_the_real_library": ch})
